@@ -15,7 +15,7 @@
 (* What each visit makes the printer do is stated here, in the shape of    *)
 (* mako/codegen.py (visitText, visitExpression, visitControlLine,          *)
 (* visitCode, visitIncludeTag, visitBlockTag, visitCallTag,                *)
-(* write_render_callable):                                                 *)
+(* write_render_callable, mangle_mako_loop for a % for that uses `loop`):  *)
 (*   SS(l)  start_source(l): source_map[lineno] = l unless already set     *)
 (*   W(k)   k physical lines written: lineno += k                          *)
 (* `em` records every emitted line that can raise on behalf of a construct *)
@@ -55,6 +55,12 @@ Visit(e, L, P, M, Em) ==
     [] e.k \in {"expr", "include", "ctl"} ->            \* start_source; one line that can raise
          [pl |-> P + 1, sm |-> SS(M, P, l), em |-> Em \cup {[ml |-> P, home |-> l]}]
     [] e.k = "ctlend" -> [pl |-> P, sm |-> M, em |-> Em]   \* writeline(None): nothing is written
+    [] e.k = "ctlloop" ->     \* a % for whose body uses `loop` (mangle_mako_loop): start_source FIRST, then the
+                              \* prologue  loop = __M_loop._enter(<iterable>) / try:  and  for <target> in loop:
+                              \* - the iterable is evaluated on the prologue line, which must map home as well
+         [pl |-> P + 3, sm |-> SS(M, P, l), em |-> Em \cup {[ml |-> P, home |-> l], [ml |-> P + 2, home |-> l]}]
+    [] e.k = "ctlendloop" ->  \* finally: / loop = __M_loop._exit()
+         [pl |-> P + 2, sm |-> M, em |-> Em]
     [] e.k = "code" ->     \* write_indented_block(text, starting_lineno): one map entry per line
          LET RECURSIVE blk(_, _)
              blk(j, m) == IF j = e.n THEN m ELSE blk(j + 1, SS(m, P + j, l + j))
@@ -102,7 +108,7 @@ NextPass == /\ phase = "lex" /\ Len(q) = 3 /\ q[1] = 1 /\ q[2] > Len(tpl)
 Metadata == /\ phase = "lex" /\ Len(q) = 3 /\ q[1] = 2 /\ q[2] > Len(tpl)
             /\ sm' = (IF pl \in Keys(sm) THEN sm ELSE sm \cup {<<pl, MaxKey(sm)>>})
             /\ phase' = "done"
-            /\ UNCHANGED <<tpl, nlk, fpos, k, lineno, cb, report, pl, em, q>>
+            /\ UNCHANGED <<tpl, nlk, fpos, k, lineno, cb, report, route, pl, em, q>>
 LMNext == Build \/ Prologue \/ Emit1 \/ NextPass \/ Metadata
 LMSpec == LMInit /\ [][LMNext]_lmvars
 
